@@ -26,7 +26,7 @@ from harness import cachework as cw
 from harness import data, tlc
 from harness.yawenv import scratch
 
-BIN = '{"N", "A", "A2", "B", "C"}'
+BIN = '{"N", "A", "A2", "B", "C", "A3"}'
 
 
 def consts(dev="{}", maxb=4):
@@ -110,8 +110,8 @@ def run(ctx) -> None:
     yaw = data.import_yaw()
     rng = random.Random(ctx.seed)
     quick = ctx.quick
-    ctx.rule = ("crash-free histories of build_trees(binning, force) and measurements with 5 binnings (none, A, A with the other closed side, "
-                "other edges, other bin count) replayed on a real cache; non-trivial = history of >= 2 operations with at least two different binnings")
+    ctx.rule = ("crash-free histories of build_trees(binning, force) and measurements with 6 binnings (none, A, A with the other closed side, "
+                "A with an edge moved by 2e-6, other edges, other bin count) and configuration variants of A (other scales, custom cosmology parameters) replayed on a real cache; non-trivial = history of >= 2 operations with at least two different binnings")
     inv = ["NeverWrongTrees", "HistoryIndependent"]
     res = tlc.run("CacheFS", tlc.make_cfg(constants=consts(), invariants=inv, deadlock=False), coverage=True)
     ctx.add_tlc("CacheFS trees machine, ideal, histories <= 4 ops (with and without crash)", res)
@@ -161,12 +161,16 @@ def run(ctx) -> None:
         hist.append([("use", a, False), ("pbuild", b, rng.random() < 0.3), ("use", b, False)])
     # histories of measurements whose configurations share the binning (same trees) but differ in scales or only in
     # the parameters of a custom cosmology: nothing kept in memory from the earlier measurement may leak into the later
+    for a, b in (("A", "A3"), ("A3", "A")):
+        for f in (False, True):
+            hist.append([("build", a, f), ("use", b, False)])
+        hist.append([("use", a, False), ("use", b, False), ("use", a, False)])
     vnames = ["A"] + list(cw.VARIANTS)
     vh = [[("use", a, False), ("use", b, False)] for a, b in itertools.permutations(vnames, 2)]
     for _ in range(6 if quick else 40):
         vh.append([("use", rng.choice(vnames + names), False) for _ in range(rng.choice([3, 4]))])
     hist += vh
-    keep = 45 + len(vh)
+    keep = 45 + len(vh) + 6
     if quick and len(hist) > 115 + keep:
         head = hist[-keep:]
         hist = rng.sample(hist[:-keep], 115) + head
@@ -232,6 +236,8 @@ def run(ctx) -> None:
                 if op == "use" and ref[cfgname] is not None and got != ref[cfgname]:
                     prev = [x for x in h[:si]]
                     kind = "same_edges_other_closed_side" if any({pb, b} == {"A", "A2"} for _, pb, _ in prev) else "other"
+                    if any({cw.base(pb), b} == {"A", "A3"} for _, pb, _ in prev):
+                        kind = "nearly_equal_edges"
                     if any(pb != cfgname and cw.base(pb) == b for _, pb, _ in prev):
                         kind = "same_binning_other_scales_or_cosmology"
                     if any(o == "ibuild" for o, _, _ in prev):
